@@ -14,11 +14,19 @@ class C19:
     rule = ('curves (gen.curve) x non-empty knee index sets x expected point sets in 8 modes round-robin (exactly the knee points; a permutation '
             'of them; other points of the curve; knee points perturbed off the curve; duplicates claiming one knee; |E| > |K|; |E| < |K|; mixed) '
             'x tolerances taken from the observed distances |kx-px|/dx (exact ties and both nextafter neighbours) or a fixed grid x the 4 '
-            'strategies round-robin.  non-trivial = at least one true positive and at least one false negative or false positive; '
-            'distinct by (points, knees, expected, t, strategy)')
+            'strategies round-robin; a share of integer-valued cases (coordinates up to 2^40, strides above 3e9) presented as int64 arrays '
+            '(the model gets the same values as doubles); and a same-object multi-call stream: ONE points / knees / expected ndarray per case, '
+            '3-6 calls of different functions (cm, mae, mse, rmse, rmspe; varying strategy and tolerance) interleaved with in-place refills by '
+            'sibling curves (x extent x1000 / x0.001 / shifted, y extent, shape) or of K / E only, every call judged against the model whose '
+            'inputs and oracle tables come from separate fresh copies.  non-trivial = at least one true positive and at least one false '
+            'negative or false positive (single calls) / at least one in-place refill between two calls (sequences); '
+            'distinct by (points, knees, expected, t, strategy) / by the whole sequence')
     assumptions = ['finite curve, n >= 2, strictly increasing x; non-empty knee index list inside the curve; non-empty finite expected set; t not NaN',
                    'range clauses for accuracy / F1 / MCC apply when all four matrix entries are >= 0 (|K| + FN <= n) and the denominator is non-zero',
-                   'integer entries below 2^53 (exact conversion to binary64)']
+                   'integer entries below 2^53 (exact conversion to binary64)',
+                   'int64-typed inputs: every matched pair (point of the iterated side, its nearest neighbour) is closer than 9e7 per coordinate, '
+                   'so that the implementation\'s int64 np.square / np.sum are exact and equal to the double evaluation (beyond 3.04e9 the '
+                   'implementation\'s int64 square wraps: reported as an observation, not generated)']
     trusted = ['modelled: evaluation.cm (in-model, bit-for-bit), accuracy, f1score, mcc (in-model), mae / mse / rmse / rmspe with the nearest '
                'neighbour chosen by np.argmin over the ORACLE table np.linalg.norm(b - p, axis=1) evaluated by the harness; the per-point terms, '
                'np.sum / np.mean (NpList.np_sum) are in-model', 'the closed form sqrt(dx*dx+dy*dy) of the oracle is compared under tolerance only']
@@ -48,7 +56,155 @@ class C19:
                 expected = expected[:max(1, n - len(knees))]
             t = self.tolerance(rng, pts, knees, expected)
             cases.append({'points': pts, 'family': fam, 'knees': knees, 'expected': expected, 't': t, 'strategy': strat, 'mode': mode})
+        # integer-valued curves with huge strides, mostly presented as int64 arrays
+        nint = {'quick': 60, 'search': 40, 'thorough': 1500}.get(tier, 60)
+        for k in range(nint):
+            n = rng.randint(3, nmax)
+            pts = self.int_curve(rng, n)
+            knees = sorted(rng.sample(range(n), rng.randint(1, max(1, min(5, n // 2)))))
+            if rng.random() < 0.2:
+                rng.shuffle(knees)
+            mode = ['exact', 'perm', 'off', 'dups'][k % 4]
+            expected = self.int_expected(rng, pts, knees, mode)
+            cases.append({'points': pts, 'family': 'int', 'knees': knees, 'expected': expected, 't': self.tolerance(rng, pts, knees, expected),
+                          'strategy': STRATS[(k // 4) % 4], 'mode': 'int-' + mode, 'int64': rng.random() < 0.7})
+        # same-object multi-call sequences
+        nseq = {'quick': 110, 'search': 60, 'thorough': 2500}.get(tier, 110)
+        for k in range(nseq):
+            cases.append(self.sequence(rng, min(nmax, 10) if tier != 'thorough' else min(nmax, 24), intmode=(k % 4 == 3)))
         return cases
+
+    # ---- integer-valued curves (exactly representable; strides above 3.04e9 make int64 squares wrap)
+    @staticmethod
+    def int_curve(rng, n):
+        base = rng.choice([1, 3, 1000, 3500000000, 4000000000, 5000000000, 2 ** 33, 2 ** 35])
+        x = rng.choice([0, 5, 2 ** 20, 2 ** 39])
+        pts = []
+        y = rng.randint(10 ** 3, 10 ** 6)
+        for _ in range(n):
+            pts.append([float(x), float(y)])
+            x += base * rng.choice([1, 1, 2])
+            y = max(0, y - rng.randint(0, max(1, y // 2)))
+        return pts
+
+    @staticmethod
+    def int_perturb(rng, pts, p):
+        xs = [q[0] for q in pts]
+        gap = min(b - a for a, b in zip(xs, xs[1:])) if len(xs) > 1 else 1
+        dxs = [0, 1, -1, 3] + ([1000, -700] if gap > 4000 else [])
+        return [p[0] + rng.choice(dxs), p[1] + rng.choice([0, 0, 1, -1, 2])]
+
+    def int_expected(self, rng, pts, knees, mode):
+        # every expected point stays close to a knee and every knee gets a close expected point (see `assumptions`)
+        kp = [list(pts[k]) for k in knees]
+        if mode == 'exact':
+            return kp
+        if mode == 'perm':
+            e = list(kp)
+            rng.shuffle(e)
+            return e
+        e = [self.int_perturb(rng, pts, p) for p in kp]
+        if mode == 'dups':
+            j = rng.randrange(len(kp))
+            e.insert(rng.randint(0, len(e)), self.int_perturb(rng, pts, kp[j]) if rng.random() < 0.5 else list(kp[j]))
+        if rng.random() < 0.3:
+            rng.shuffle(e)
+        return e
+
+    # ---- same-object multi-call sequences
+    @staticmethod
+    def sibling(rng, pts, intmode):
+        n = len(pts)
+        if intmode:
+            u = rng.random()
+            if u < 0.35:
+                return C19.int_curve(rng, n)
+            f = rng.choice([1000, 1000, 7, 1])
+            sh = rng.choice([0, 2 ** 30, 12345]) if f * max(p[0] for p in pts) < 2 ** 39 else 0
+            if f * max(p[0] for p in pts) + sh > 2 ** 40:
+                return C19.int_curve(rng, n)
+            if f == 1 and sh == 0:
+                sh = 999
+            return [[p[0] * f + sh, p[1] * rng.choice([1, 1, 3])] for p in pts]
+        u = rng.random()
+        base = pts
+        if u < 0.45:
+            base = gen.curve(rng, n)[1]                       # another shape, same length
+        fx = rng.choice([1000.0, 1000.0, 0.001, 1.0, 250.0])
+        sx = rng.choice([0.0, 0.0, 1.0e5, -3.0])
+        fy = rng.choice([1.0, 1.0, 10.0, 0.01])
+        sy = rng.choice([0.0, 0.0, 5.0])
+        if base is pts and fx == 1.0 and sx == 0.0:
+            fx = 1000.0
+        out = [[p[0] * fx + sx, p[1] * fy + sy] for p in base]
+        if any(not (a[0] < b[0]) for a, b in zip(out, out[1:])) or any(not math.isfinite(v) for p in out for v in p):
+            return gen.curve(rng, n, 'grid')[1]
+        return out
+
+    def derived_expected(self, rng, pts, knees, ne, intmode):
+        kp = [list(pts[k]) for k in knees]
+        xs = [p[0] for p in pts]
+        dx = max(xs) - min(xs)
+        out = []
+        order = list(range(len(kp)))
+        if rng.random() < 0.3:
+            rng.shuffle(order)
+        for j in range(ne):
+            p = kp[order[j % len(kp)]]
+            if intmode:
+                out.append(self.int_perturb(rng, pts, p) if rng.random() < 0.6 else list(p))
+            elif rng.random() < 0.4:
+                out.append(list(p))
+            else:
+                d = rng.choice([0.001, 0.004, 0.01, 0.02, 0.05]) * dx * rng.choice([-1, 1])
+                out.append([p[0] + d, p[1] + rng.choice([0.0, 0.0, 0.5, -0.25])])
+        return out
+
+    def sequence(self, rng, nmax, intmode):
+        n = rng.randint(4, max(4, nmax))
+        pts = self.int_curve(rng, n) if intmode else gen.curve(rng, n)[1]
+        nk = rng.randint(1, max(1, min(4, n // 2)))
+        knees = sorted(rng.sample(range(n), nk))
+        ne = nk if (intmode or rng.random() < 0.6) else max(1, nk + rng.choice([-1, 1]))
+        if intmode and rng.random() < 0.3:
+            ne = nk + 1
+        exp = self.derived_expected(rng, pts, knees, ne, intmode)
+        nsteps = rng.randint(3, 6)
+        calls = [rng.choice(['cm', 'cm', 'mae', 'mse', 'rmse', 'rmspe']) for _ in range(nsteps)]
+        pair_at = None
+        if rng.random() < 0.5:
+            pair_at = rng.randint(0, nsteps - 2)
+            calls[pair_at], calls[pair_at + 1] = 'mse', 'rmse'
+        if rng.random() < 0.6 and calls.count('cm') < 2:
+            free = [i for i in range(nsteps) if pair_at is None or i not in (pair_at, pair_at + 1)]
+            for i in rng.sample(free, min(len(free), 2 - calls.count('cm'))):
+                calls[i] = 'cm'
+        base_strat = rng.choice(STRATS)
+        steps = []
+        strat = base_strat
+        for i, fn in enumerate(calls):
+            prev_strat = strat
+            strat = base_strat if rng.random() < 0.7 else rng.choice(STRATS)
+            if i > 0:
+                u = rng.random()
+                in_pair = pair_at is not None and i == pair_at + 1
+                if in_pair and not intmode and rng.random() < 0.75:
+                    pts = self.sibling(rng, pts, intmode)          # the curve changes, K / E / strategy stay: mse then rmse
+                    strat = prev_strat
+                elif u < 0.55:
+                    pts = self.sibling(rng, pts, intmode)
+                    if intmode or rng.random() < 0.7:
+                        exp = self.derived_expected(rng, pts, knees, ne, intmode)
+                elif u < 0.78:
+                    if rng.random() < 0.6:
+                        knees = sorted(rng.sample(range(n), nk))
+                        if intmode or rng.random() < 0.6:
+                            exp = self.derived_expected(rng, pts, knees, ne, intmode)
+                    else:
+                        exp = self.derived_expected(rng, pts, knees, ne, intmode)
+            steps.append({'points': pts, 'knees': list(knees), 'expected': exp, 'fn': fn, 'strategy': strat,
+                          't': self.tolerance(rng, pts, knees, exp)})
+        return {'kind': 'seq', 'steps': steps, 'int64': bool(intmode and rng.random() < 0.8), 'mode': 'seq-int' if intmode else 'seq', 'family': 'seq'}
 
     @staticmethod
     def expected(rng, pts, knees, mode):
